@@ -138,6 +138,9 @@ class Triangle(Domain):
             # if the number of points is specified we have to be sure to sample
             # the right amount
             bary_coords = self._grid_has_n_points(n, bary_coords, device)
+        elif len(bary_coords) > n:
+            # a density gives at most ceil(d * volume) points
+            bary_coords = bary_coords[:n]
         points_in_dir_1 = bary_coords[:, :1] * dir_1
         points_in_dir_2 = -bary_coords[:, 1:] * dir_3
         points = points_in_dir_1 + points_in_dir_2
